@@ -122,4 +122,7 @@ func c07Extra(r *core.Run) {
 		}
 		o.Site(n, mrPkg)
 	})
+
+	// rules added after the ninth detection round (c07_r9.go)
+	c07R9(r)
 }
